@@ -16,7 +16,7 @@ RULE = ("interp2d: strictly increasing node sets (1..12 nodes; dyadic gaps 2^k f
         "integer arrays and Python int lists, plus random positive / negative / mixed series, p in {1,2}, dir in {None,up,down}; "
         "design spectra: period grid on [0,6], every breakpoint and its +-1 ulp neighbours, classes C/D/E, several (Z,R,N). "
         "distinct = hash of (function, inputs); non-trivial = series/node set of length >= 3 that is not constant (periods: T > 0)")
-TIE = ("correspondence (hand models Model/Fns.lean on exact rationals, Model/DesignSpectra.lean instantiated at Float); "
+TIE = ("translator (the c_h_factor / sd_nzs tables are regenerated from eqsig/design_spectra.py; rfl bridge Props/C20Gen to the model) + correspondence (hand models Model/Fns.lean on exact rationals, Model/DesignSpectra.lean instantiated at Float); "
        "exact comparison on dyadic-safe inputs, budget 1e-9 otherwise")
 NOT_PROVED = ["IEEE rounding of the float pipelines (measured per case; budget R/T 1e-9)",
               "libm pow(x, 0.75) and x**2 in the design spectra (Float twin; x**2 vs x*x differ by 1 ulp on ~0.1 % of doubles)",
@@ -30,6 +30,8 @@ R9 = Fraction(1, 10**9)
 # ----------------------------------------------------------------------------------------------------------------------
 # helpers
 # ----------------------------------------------------------------------------------------------------------------------
+
+PROP_MODULES = ['C20', 'C20Gen']
 
 def fmean(l):
     return sum(l, Fraction(0)) / len(l)
@@ -381,6 +383,9 @@ def spec_step_err(fv, p):
     return out
 
 
+INT_CONTAINERS = ('int_array', 'int_list')
+
+
 def do_step(ctx, v, kind, container, pows=(1, 2), dirs=(None,), inds=()):
     from eqsig.fns.average import calc_step_fn_vals_error, calc_step_fn_steps_vals
     rng = ctx.rng
@@ -409,7 +414,12 @@ def do_step(ctx, v, kind, container, pows=(1, 2), dirs=(None,), inds=()):
                 msg, g = cmp_budget(flat(val), p_rats(outs[0]), R9, scale=scale)
                 ctx.gap('calc_step_fn_vals_error', g)
                 return msg
-            ctx.corr('calc_step_fn_vals_error', f"step_err|{w_rats(v)}|{p}|{d or 'none'}", res, compare, inputs=inputs)
+            if container in INT_CONTAINERS:
+                # open finding F20-2: for integer-dtype input the impl truncates the errors (np.ones_like(values)); the Lean model is
+                # about float arrays, so no correspondence is claimed for integer containers (the spec oracle below still judges them)
+                ctx.hist('step/int-container: correspondence not claimed (F20-2)')
+            else:
+                ctx.corr('calc_step_fn_vals_error', f"step_err|{w_rats(v)}|{p}|{d or 'none'}", res, compare, inputs=inputs)
             if res[0] != 'ok':
                 ctx.oracle('C20.d calc_step_fn_vals_error returns a series for a non-empty input', False, inputs, detail=res)
                 continue
@@ -474,7 +484,8 @@ def do_step(ctx, v, kind, container, pows=(1, 2), dirs=(None,), inds=()):
                 req = f"step_levels|{w_rats(v)}|T|{hits[0]}" if hits else f"step_levels|{w_rats(v)}|F|"
             else:
                 req = f"step_levels|{w_rats(v)}|F|"
-            ctx.corr('calc_step_fn_steps_vals', req, res, cmp_levels, inputs=inputs)
+            if container not in INT_CONTAINERS:
+                ctx.corr('calc_step_fn_steps_vals', req, res, cmp_levels, inputs=inputs)
             continue
         ctx.corr('calc_step_fn_steps_vals', f"step_levels|{w_rats(v)}|T|{ind}", res, cmp_levels, inputs=inputs)
         if not (0 <= ind < n):
@@ -668,3 +679,22 @@ def run(ctx):
     gen_step(ctx)
     gen_spectra(ctx)
     ctx.flush()
+
+
+# ---- known findings -------------------------------------------------------------------------------------------------
+
+def _m_f20_2(f):
+    fa = f.get('facts') or {}
+    return fa.get('container') in INT_CONTAINERS and fa.get('fn') in ('calc_step_fn_vals_error', 'calc_step_fn_steps_vals') and \
+        (f['clause'].startswith('C20.d step-function error at each split') or f['clause'].startswith('C20.e default'))
+
+
+KNOWN_MATCHERS = {'F20-2': _m_f20_2}
+
+
+def known_witness(fid):
+    if fid == 'F20-2':
+        from eqsig.fns.average import calc_step_fn_vals_error
+        out = calc_step_fn_vals_error([1, 2, 4, 4])
+        return not np.allclose(np.asarray(out, dtype=float), [8 / 3, 1.0, 10 / 3, 5.0])
+    return True
